@@ -330,6 +330,10 @@ pub fn primes(n: u32) -> Vec<u32> {
     let mut sieve = vec![false; bound / 2];
     let mut primes = Vec::with_capacity(n as usize);
     primes.push(2);
+    if n <= 1 {
+        primes.truncate(n as usize);
+        return primes;
+    }
     for i in 1..sieve.len() {
         if !sieve[i] {
             let p = 2 * i + 1;
